@@ -8,24 +8,11 @@ import DrxProofs.LinkFlowLayout
 namespace Drx.LinkFlow
 open Drx Drx.Lscr Drx.Spec Drx.Link
 
-mutual
-/-- the expression constructors whose image in the model's AST the control-flow link looks at (conditions of `repeat while`,
-    right-hand sides of `set`): a fixed list, so that extensions of agent-link's `FragE` / `Emb` do not affect the link -/
-def FragE0 : Expr → Bool
-  | .int _ => true
-  | .str _ => true
-  | .sym _ => true
-  | .var _ _ => true
-  | .un _ a => FragE0 a
-  | .bin _ a b => FragE0 a && FragE0 b
-  | .field a => FragE0 a
-  | .call _ as => FragL0 as
-  | .list as => FragL0 as
-  | _ => false
-def FragL0 : List Expr → Bool
-  | [] => true
-  | e :: es => FragE0 e && FragL0 es
-end
+/-- the expressions whose image in the model's AST the control-flow link looks at (conditions of `repeat while`, right-hand sides
+    of `set`). Originally a fixed constructor list; since agent-link provides the three shape lemmas for EVERY image of an
+    expression (`emb_name`, `emb_const_lit`, `emb_binary_inv` in Drx/Link.lean, no fragment hypothesis) it is all of `FragE`. -/
+def FragE0 (e : Expr) : Bool := FragE e
+def FragL0 (l : List Expr) : Bool := FragL l
 
 mutual
 /-- structured statements over agent-link's expression / simple-statement fragment: if [else], repeat while, repeat with a
